@@ -554,7 +554,7 @@ func randProjFor(e *env) error {
 	default:
 		return nil
 	}
-	n := 30
+	n := 80
 	if e.thorough {
 		n = 150 * e.scale
 	}
